@@ -675,6 +675,22 @@ class MediaWorld(MediaBase):
         else:
             self.probes["live_all_frames_recovered"] += 1
 
+    def complete_in_buffer(self, ks):
+        """Did every packet of each of these frames reach the jitter buffer?  (Such a frame is complete and can only be
+        waiting for further arrivals to be released: one frame per add(), known finding C10.)"""
+        by_idx = {v[2]: q for q, v in self.first_tx.items()}
+        starts, pos = [], 0
+        for fr in self.sent:
+            starts.append(pos)
+            pos += len(fr["chunks"])
+        for k in ks:
+            if k >= len(self.sent):
+                return False
+            qs = [by_idx.get(i) for i in range(starts[k], starts[k] + len(self.sent[k]["chunks"]))]
+            if not all(q is not None and q in self.jb_seen for q in qs):
+                return False
+        return True
+
     def config_class(self):
         return "%s/%s/%s" % (self.cfg["mode"], self.cfg["codec"], "rtx" if self.cfg["rtx"] else "nortx")
 
